@@ -1706,6 +1706,19 @@ impl platform::Platform for Elf {
             secnames::COMMENT_SECTION_NAME,
             output_section_id::COMMENT,
         ));
+
+        // The symbol and string tables of the input objects never go to the output as sections,
+        // whatever the script says about other sections. Without these rules they'd be copied when
+        // nothing garbage-collects them.
+        for name in [
+            secnames::STRTAB_SECTION_NAME,
+            secnames::SYMTAB_SECTION_NAME,
+            secnames::SHSTRTAB_SECTION_NAME,
+            secnames::SYMTAB_SHNDX_SECTION_NAME,
+            secnames::GROUP_SECTION_NAME,
+        ] {
+            rule_builder.add_section_rule(SectionRule::exact(name, SectionRuleOutcome::Discard));
+        }
     }
 
     fn init_section_priority(name: &[u8]) -> Option<u16> {
